@@ -271,8 +271,23 @@ def r08d(ctx, rep):
         oke = [t for r_ in rest for (_, t) in A.call_outcome(g, r_, uses).ok] or [r_.target for r_ in rest]
         after = A.reachable(g, oke)
         before = A.reachable(g, [0], cut_blocks={r_.bb for r_ in rest})
-        st = [c for c in A.calls_to(g, ('re', r'CheckpointStorage::store$')) if c.bb in after]
-        ld = [c for c in A.calls_to(g, ('re', r'CheckpointStorage::load$')) if c.bb in before]
+        def reaches(name, pat, depth=2, seen=None):
+            # async helpers are coroutines (never inlined): look into the bodies of the function and of its closures
+            seen = seen if seen is not None else set()
+            if name in seen:
+                return False
+            seen.add(name)
+            for h in A.with_closures(cp.fns, name):
+                for c in A.calls(h):
+                    if re.search(pat, c.resolved):
+                        return True
+                    if depth > 0 and c.resolved.startswith('tensor_checkpoint::') and reaches(c.resolved, pat, depth - 1, seen):
+                        return True
+            return False
+        st = [c for c in A.calls(g) if c.bb in after and (re.search(r'CheckpointStorage::store$', c.resolved) or
+                                                          (c.resolved.startswith('tensor_checkpoint::') and reaches(c.resolved, r'CheckpointStorage::store$')))]
+        ld = [c for c in A.calls(g) if c.bb in before and (re.search(r'CheckpointStorage::load$', c.resolved) or
+                                                           (c.resolved.startswith('tensor_checkpoint::') and reaches(c.resolved, r'CheckpointStorage::load$')))]
         if st and ld:
             carries = '%d load(s) before, store at %s' % (len(ld), g.loc(st[0].line))
     n = 0
